@@ -58,8 +58,8 @@ ASSUMPTIONS = [
 ]
 COMPONENTS = engine_p0.components()
 TIERS = {
-    "quick": {"histories": 224, "budget_s": 75, "timeout": 240, "batch": 112, "shrink_s": 25},
-    "thorough": {"histories": 3200, "budget_s": 800, "timeout": 300, "batch": 320, "shrink_s": 60},
+    "quick": {"histories": 256, "budget_s": 60, "timeout": 240, "batch": 64, "shrink_s": 20},
+    "thorough": {"histories": 4800, "budget_s": 780, "timeout": 300, "batch": 320, "shrink_s": 45},
 }
 SHRINK_EACH_IDENTITY = True  # one minimised replay per violation identity
 MAX_REPORTS = 12
